@@ -36,7 +36,7 @@ CvWarn(w)  == [k |-> w.k, id |-> w.id, body |-> w.body, named |-> w.named, uses 
 CvMethAll(j) == [f \in RFiles |-> [p \in Pairs |-> CvMeth(j[f][p])]]
 CvSets(j)    == [f \in RFiles |-> SetOf(j[f])]
 CvWarnAll(j) == [f \in RFiles |-> {CvWarn(j[f][i]) : i \in DOMAIN j[f]}]
-CvPost(j)    == [meth |-> CvMethAll(j.meth), helpers |-> CvSets(j.helpers), imports |-> CvSets(j.imports),
+CvPost(j)    == [meth |-> CvMethAll(j.meth), root |-> j.root, helpers |-> CvSets(j.helpers), imports |-> CvSets(j.imports),
                  warn |-> CvWarnAll(j.warn), ok |-> j.ok, comp |-> j.comp]
 CvEdit(e)    == [body |-> e.body, doc |-> e.doc, named |-> e.named]
 
@@ -45,8 +45,9 @@ StepInit ==
   /\ LET j == Steps[idx].pre IN
      /\ schema  = [p \in Pairs |-> j.schema[p]]
      /\ texists = [t \in NonRoot |-> j.texists[t]]
-     /\ cfg     = [rl |-> j.cfg.rl, el |-> j.cfg.el]
+     /\ cfg     = [rl |-> j.cfg.rl, el |-> j.cfg.el, ab |-> j.cfg.ab]
      /\ meth    = CvMethAll(j.meth)
+     /\ root    = j.root
      /\ helpers = CvSets(j.helpers)
      /\ imports = CvSets(j.imports)
      /\ warn    = CvWarnAll(j.warn)
@@ -77,6 +78,7 @@ EditAction(a) ==
   \/ a.name = "AddHelper"   /\ AddHelper(a.f, a.h)
   \/ a.name = "AddImport"   /\ AddImport(a.f, a.p, a.i)
   \/ a.name = "Resave"      /\ Resave(a.f, a.en)
+  \/ a.name = "EditRoot"    /\ EditRoot(a.rt)
   \/ a.name = "AddField"    /\ AddField(a.p, a.sf)
   \/ a.name = "RemoveField" /\ RemoveField(a.p)
   \/ a.name = "RenameField" /\ RenameField(a.p, a.q)
@@ -88,7 +90,7 @@ JudgeEdit ==
   /\ EditAction(Steps[idx].a)
   /\ LET j == Steps[idx].post IN
      out' = [id |-> Steps[idx].id, kind |-> "edit",
-             same |-> /\ meth' = CvMethAll(j.meth) /\ helpers' = CvSets(j.helpers)
+             same |-> /\ meth' = CvMethAll(j.meth) /\ root' = j.root /\ helpers' = CvSets(j.helpers)
                       /\ imports' = CvSets(j.imports) /\ warn' = CvWarnAll(j.warn)
                       /\ schema' = [p \in Pairs |-> j.schema[p]] /\ dirty' = j.dirty
                       /\ enc' = [f \in RFiles |-> j.enc[f]]]
